@@ -33,7 +33,7 @@ except Exception:  # pragma: no cover
 XCHECK = int(os.environ.get("VERIF_XCHECK", "0") or 0)
 XCHECK_S = int(os.environ.get("VERIF_XCHECK_S", "5") or 5)
 _XN = 0
-QE_TIMEOUT_MS = 60000      # per quantifier elimination; expiry is inconclusive (exit 2), never a verdict. 20 s was hit at load average 55
+QE_TIMEOUT_MS = int(os.environ.get("VERIF_QE_TIMEOUT_MS", "60000") or 60000)      # expiry is inconclusive (exit 2), never a verdict; 20 s was hit at load average 55
 
 # --------------------------------------------------------------------------- errors
 _COMM = None
